@@ -504,7 +504,7 @@ def c08(tier, seed):
             Prices=[10], MaxSubmits=3, MaxBatch=3, MaxSteps=2, MaxOrders=2,
             need=("schedule_matters", "has_trade", "trading_toggled"), timeout=400 if q else 1800)
     # long random runs, batches up to 25 instructions (step sizes from 1 to 1000): schedule from the hook, linear validation
-    env_traces(ck, "rand_env_hook", {"max_batch": 25, "p_step": 0.06}, files=6 if q else 48, runs=3 if q else 6, ops=250, hook=True)
+    env_traces(ck, "rand_env_hook", {"max_batch": 48, "p_step": 0.04}, files=6 if q else 48, runs=3 if q else 6, ops=250, hook=True)
     # agent-generated load: complete simulations through the real runners (batches of tens of instructions)
     sim_traces(ck, "sim_steps", files=4 if q else 32, runs=3 if q else 6, steps=30 if q else 100)
     # hook-free: TLC infers a processing order that explains each step (batches up to 8)
@@ -586,7 +586,7 @@ def c14(tier, seed):
             MaxSubmits=3 if q else 4, MaxBatch=3, MaxSteps=2, MaxOrders=2, need=("schedule_matters", "has_trade"), timeout=400 if q else 1800)
     # long random histories of direct operations on markets of 1..4 assets (per-asset ticks, reloads, toggles)
     mkt_traces(ck, "rand_market", files=6 if q else 48, runs=3 if q else 6, ops=200)
-    env_traces(ck, "rand_menv_assets", {"kind": "menv", "assets": [2, 3, 4], "ticks": [1, 2, 3, 5], "max_batch": 16, "p_step": 0.08}, files=6 if q else 48,
+    env_traces(ck, "rand_menv_assets", {"kind": "menv", "assets": [2, 3, 4], "ticks": [1, 2, 3, 5], "max_batch": 48, "p_step": 0.04}, files=6 if q else 48,
                runs=3 if q else 6, ops=250)
     env_traces(ck, "rand_menv_assets_inferred", {"kind": "menv", "assets": [2, 3], "ticks": [1, 2], "max_batch": 7, "p_step": 0.15}, files=4 if q else 32,
                runs=3 if q else 6, ops=120, hook=False)
@@ -612,6 +612,13 @@ def c09(tier, seed):
     for i, sd in enumerate([0, 1, (1 << 64) - 1, (1 << 32) - 1, 1 << 63, 2]):
         configs[i]["seed"] = sd
         configs[i]["steps"] = max(configs[i]["steps"], 17)
+    # heavy-tailed price distributions (the documentation's sigma = 10: sampled prices leave the price range and are clamped)
+    for i in range(3, len(configs), 5):
+        configs[i]["sigma"] = 10.0
+    # large populations: thousands of instructions per step, over both assets of the multi-asset environment and in the
+    # single-asset one (any batch-size-dependent processing path is taken), few steps
+    for i, (comp, z) in enumerate([("MMixed", 400), ("MNested", 300), ("Mixed", 200)] if q else [("MMixed", 400), ("MNested", 300), ("Mixed", 200), ("MMixed", 800), ("TwoNoise", 300)]):
+        configs[7 + 2 * i].update({"comp": comp, "scale": z, "steps": 2 if q else 3})
     cf = os.path.join(d, "configs.json")
     json.dump(configs, open(cf, "w"))
     t0 = time.time()
@@ -764,6 +771,10 @@ def c20(tier, seed):
     ck.features["max_leaves"] = max(x["n"] for x in sh)
     ck.features["structs_with_non_alphabetical_field_names"] = sum(1 for x in sh if x.get("naming") != "ordered")
     ck.features["structs_with_attributes_on_fields"] = sum(1 for x in sh if x.get("attrs"))
+    ck.features["structs_written_on_one_line_without_trailing_comma"] = sum(1 for x in sh if x.get("style") == "compact")
+    ck.features["structs_declared_through_macro_rules"] = sum(1 for x in sh if x.get("style") == "macro")
+    if not ck.features["structs_written_on_one_line_without_trailing_comma"] or not ck.features["structs_declared_through_macro_rules"]:
+        raise ToolError("C20: vacuous - no compact / macro-declared struct was generated")
     if not ck.features["structs_with_non_alphabetical_field_names"] or not ck.features["structs_with_attributes_on_fields"]:
         raise ToolError("C20: vacuous - no struct with non-alphabetical names / attribute-bearing fields was generated")
     if o.stdout:
@@ -927,7 +938,7 @@ def c18(tier, seed):
     q = ck.quick
     # every call sequence of the Python OrderBook API over a small alphabet: ids, touch prices, volumes, order and
     # trade tuples (True = bid, status codes), statuses
-    py_book_gen(ck, "py_book_calls", Ops=["cap", "cancel", "modify", "settime"], Prices=[10, 11], Vols=[1, 2], ModPrices=[-1, 11],
+    py_book_gen(ck, "py_book_calls", Ops=["cap", "cancel", "modify", "settime", "settime_back"], Prices=[10, 11], Vols=[1, 2], ModPrices=[-1, 11],
                 ModVols=["smaller", "equal", "larger"], MaxOrders=3, MaxOps=4 if q else 5, Kinds=["L"] if q else ["L", "M"],
                 need=("has_trade", "op_modify", "op_cancel", "op_settime"), timeout=300 if q else 1500)
     # trading toggles (rejected market orders = status 4, crossed books) and snapshots (reloaded copies driven on)
